@@ -157,7 +157,7 @@ def run(chk):
     if not ok:
         chk.violation(r_seq, "ctor", "the unified branch of the Restart constructor does %s; it must reopen at the step and write SEQNUM(step) first" % seqs, c["file"], c["l"])
     # ---- C08.index: report step -> [first, last) array index of a unified restart file
-    r_ix = chk.rule("C08.index", "ERst::initUnified partitions the arrays of a unified restart file into half-open ranges: the k-th SEQNUM starts range k (its array index and its report number are recorded in the same branch), range k ends where range k+1 starts and the last one at the number of arrays, the range is stored under the k-th report number; every loop over a range runs first <= i < second", floor=6)
+    r_ix = chk.rule("C08.index", "ERst::initUnified partitions the arrays of a unified restart file into half-open ranges: the k-th SEQNUM starts range k (its array index and its report number are recorded in the same branch), range k ends where range k+1 starts and the last one at the number of arrays, the range is stored under the k-th report number; every loop over a range runs first <= i < second; the scan for SEQNUM visits every array", floor=7)
     iu = fx.fn1("Opm::EclIO::ERst::initUnified")
 
     def sub2(n):
@@ -187,6 +187,17 @@ def run(chk):
                             F = nm(o_)
                         elif sub2(a0) and strip(sub2(a0)[1]).get("k") == "Int" and strip(sub2(a0)[1])["v"] == 0:
                             Sq = nm(o_)
+    # the scan visits EVERY array of the file (a SEQNUM that is the last array - a step that was started and cut short - counts)
+    scan = [lp for lp in loops if any(iff["k"] == "If" and '== "SEQNUM"' in show(iff["cond"]).replace("std::basic_string<char>{", "") for iff in walk(lp["body"]))]
+    if len(scan) == 1 and names:
+        lp0 = scan[0]
+        lv0 = [v for d in walk(lp0.get("init") or {}) if d["k"] == "Decl" for v in d["vars"]]
+        init_ok = len(lv0) == 1 and strip(lv0[0].get("init") or {}).get("k") == "Int" and strip(lv0[0]["init"])["v"] == 0
+        cnd0 = show(decast(lp0["cond"])).replace(" ", "")
+        full = init_ok and cnd0 in ("(%s<this.%s.size())" % (lv0[0]["n"], names), "(%s!=this.%s.size())" % (lv0[0]["n"], names)) and "++" in show(lp0.get("inc") or {})
+        chk.instance(r_ix, "scan", sample=dict(loop=cnd0, from_zero=init_ok))
+        if not full:
+            chk.violation(r_ix, "scan", "ERst::initUnified looks for SEQNUM records with `%s` (start at 0: %s): every array of the file must be visited - a file whose last array is a SEQNUM (a report step that was started and cut short) otherwise hides that step, its write position is not found and a rewrite appends a second copy" % (cnd0, init_ok), iu["file"], lp0["l"])
     chk.instance(r_ix, "collect", sample=dict(start_indices=F, report_numbers=Sq, array_names=names))
     if not (F and Sq and names):
         chk.violation(r_ix, "collect", "ERst::initUnified no longer records, in the branch that recognises a SEQNUM array, both its array index and its report number (found index list %s, number list %s)" % (F, Sq), iu["file"], iu["l"])
